@@ -23,8 +23,11 @@ SCALE_RATE = ("PlackettLuce", "BradleyTerryFull", "BradleyTerryPart")
 PREDICTS = ("predict_win", "predict_draw", "predict_rank")
 
 
-def _world(model, sizes, mode):
-    """(ctx, modelA, modelB, teamsA builder, teamsB builder, k or a)"""
+def _world(model, sizes, mode, inplace=False):
+    """(ctx, modelA, modelB, teamsA builder, teamsB builder, k or a).
+    inplace: the rescaled model B is an existing model whose mu, sigma, beta, tau attributes were
+    multiplied afterwards (the property speaks of 'the model's mu, sigma, beta and tau', not of how
+    the model came to have them) - a value derived from beta at construction time would be stale"""
     S = extract.Scratch(model)
     game.stub_tm_real(S)
     game.stub_phi_real(S)
@@ -36,7 +39,11 @@ def _world(model, sizes, mode):
         if mode == "scale":
             k = ctx.real("k")
             ctx.assume(k.t > 0)
-            mB = S.cls(mu=params["mu"] * k, sigma=params["sigma"] * k, beta=params["beta"] * k, kappa=params["kappa"], tau=params["tau"] * k)
+            if inplace:
+                mB = S.cls(mu=params["mu"], sigma=params["sigma"], beta=params["beta"], kappa=params["kappa"], tau=params["tau"])
+                mB.mu, mB.sigma, mB.beta, mB.tau = params["mu"] * k, params["sigma"] * k, params["beta"] * k, params["tau"] * k
+            else:
+                mB = S.cls(mu=params["mu"] * k, sigma=params["sigma"] * k, beta=params["beta"] * k, kappa=params["kappa"], tau=params["tau"] * k)
         else:
             k = ctx.real("a")
             mB = S.cls(mu=params["mu"], sigma=params["sigma"], beta=params["beta"], kappa=params["kappa"], tau=params["tau"])
@@ -57,11 +64,11 @@ def _world(model, sizes, mode):
     return ctx, S, mA, mB, teams, k
 
 
-def unit_rate(model, sizes, mode, ranks):
+def unit_rate(model, sizes, mode, ranks, inplace=False):
     recs = []
-    shape = f"sizes={sizes},ranks={ranks}"
+    shape = f"sizes={sizes},ranks={ranks}" + (",model rescaled in place" if inplace else "")
     fn = f"{model}.rate"
-    ctx, S, mA, mB, teams, k = _world(model, sizes, mode)
+    ctx, S, mA, mB, teams, k = _world(model, sizes, mode, inplace)
     with active(ctx):
         tA, tB = per_path(teams("A")), per_path(teams("B"))
         oa = ctx.merged(lambda i: call(mA.rate, tA(i), ranks=list(ranks) if ranks else None))
@@ -69,6 +76,7 @@ def unit_rate(model, sizes, mode, ranks):
     rp = c01._std_replay(model, sizes, ranks, "default", scale_of(model))
     rp["kind"] = "c16_rate"
     rp["mode"] = mode
+    rp["inplace"] = bool(inplace)
     if oa[0] != "return" or ob[0] != "return":
         return [driver.rec(f"C16/{model}/rate/{mode}@{shape}", "refuted", "explorer", 0, fn=fn, shape=shape, replay=rp, note=repr((oa[1], ob[1]))[:200])]
     P = field.Prover(ctx.hyps(), list(ctx.facts.values()))
@@ -88,7 +96,7 @@ def unit_rate(model, sizes, mode, ranks):
                     ok = False
                     notes.append(f"{nm}[{i},{j}] {note}")
     recs.append(field_rec(f"C16/{model}/rate/{mode}@{shape}", ok, "field", "; ".join(notes)[:300], time.time() - t0, fn, shape, rp))
-    if ranks is None and sizes == (1, 1):
+    if ranks is None and sizes == (1, 1) and not inplace:
         # canary: scaling / shifting only the *ratings* (not as claimed) - "sigma is unchanged by scaling" must fail
         o = P.prove_eq(term(ob[1][0][0].sigma), term(oa[1][0][0].sigma))[0] if mode == "scale" else P.prove_eq(term(ob[1][0][0].mu), term(oa[1][0][0].mu))[0]
         recs.append(driver.rec(f"C16/{model}/rate/{mode}/canary-no-effect@{shape}", "discharged" if o else "refuted", "field", 0, kind="canary", fn=fn, shape=shape,
@@ -96,10 +104,10 @@ def unit_rate(model, sizes, mode, ranks):
     return recs
 
 
-def unit_predict(model, sizes, mode):
+def unit_predict(model, sizes, mode, inplace=False):
     recs = []
-    shape = f"sizes={sizes}"
-    ctx, S, mA, mB, teams, k = _world(model, sizes, mode)
+    shape = f"sizes={sizes}" + (",model rescaled in place" if inplace else "")
+    ctx, S, mA, mB, teams, k = _world(model, sizes, mode, inplace)
     res = {}
     with active(ctx):
         for op in PREDICTS:
@@ -109,7 +117,7 @@ def unit_predict(model, sizes, mode):
     for op in PREDICTS:
         oa, ob = res[op]
         fn = f"{model}.{op}"
-        rp = {"kind": "c16_predict", "model": model, "op": op, "mode": mode, "game": c01._std_replay(model, sizes, None, "default")["game"]}
+        rp = {"kind": "c16_predict", "model": model, "op": op, "mode": mode, "inplace": bool(inplace), "game": c01._std_replay(model, sizes, None, "default")["game"]}
         t0 = time.time()
         ok = oa[0] == "return" and ob[0] == "return"
         notes = []
@@ -142,6 +150,8 @@ def units(tier):
         if m in SCALE_RATE:
             for s, r in rate_shapes:
                 us.append(("unit_rate", (m, s, "scale", r)))
+            us.append(("unit_rate", (m, (2, 1), "scale", [1, 2], True)))
+        us.append(("unit_predict", (m, (1, 1, 1), "scale", True)))
         for s, r in shift_shapes:
             us.append(("unit_rate", (m, s, "shift", r)))
         for s in ([(1, 1), (2, 1), (1, 1, 1)] if tier == "quick" else [(1, 1), (2, 1), (2, 3), (1, 1, 1), (2, 1, 3), (1, 1, 1, 1)]):
